@@ -200,3 +200,8 @@ def drain():
     v = list(VIOLATIONS)
     del VIOLATIONS[:]
     return v
+
+
+def report():
+    """Plug-in interface for vf/inject/tracer.py (subject side)."""
+    return {'evals': dict(EVALS), 'violations': [[l, d] for l, d in drain()]}
